@@ -160,13 +160,27 @@ def rel_diff(a: np.ndarray, b: np.ndarray, scale: float | None = None) -> float:
     return float(np.max(d)) / s
 
 
-def dict_rel_diff(a: dict, b: dict, scales: dict | None = None) -> tuple[float, str]:
-    """Worst relative difference over the union of keys (missing key -> inf)."""
+def dict_rel_diff(a: dict, b: dict, scales: dict | None = None, field_floor: float = 1e-2) -> tuple[float, str]:
+    """Worst relative difference over the union of keys (missing key -> inf).
+
+    Keys of the field group ("f/...": E, H, PML psi, polarisation) share one physical scale: an array
+    whose own max is below field_floor x (group max) is compared against that floor instead of its own
+    noise-level magnitude (a PML auxiliary field of 1e-18 next to fields of 1e-8 carries only round-off).
+    """
     worst, wk = 0.0, ""
+    gmax = 0.0
+    for k in a:
+        if k.startswith("f/") and k in b and np.asarray(a[k]).size:
+            gmax = max(gmax, float(np.max(np.abs(a[k]))), float(np.max(np.abs(b[k]))))
     for k in sorted(set(a) | set(b)):
         if k not in a or k not in b:
             return float("inf"), k
-        r = rel_diff(a[k], b[k], None if scales is None else scales.get(k))
+        sc = None if scales is None else scales.get(k)
+        if sc is None and k.startswith("f/") and gmax > 0 and np.isfinite(gmax):
+            own = max(float(np.max(np.abs(a[k]))), float(np.max(np.abs(b[k])))) if np.asarray(a[k]).size else 0.0
+            if np.isfinite(own):
+                sc = max(own, field_floor * gmax)
+        r = rel_diff(a[k], b[k], sc)
         if r > worst:
             worst, wk = r, k
     return worst, wk
